@@ -1,4 +1,4 @@
-import VermouthProofs.C01_Finish
+import VermouthProofs.C01_Inter
 import VermouthProofs.Iso
 /-!
 # C01 — resolution transformation conserves atoms, residues and connectivity
@@ -367,6 +367,127 @@ theorem overlap_warned (m : MolIn) (ps : List Placement) (r : Result) (h : assem
   simp only [Bool.not_eq_true', List.isEmpty_eq_false_iff]
   exact List.ne_nil_of_mem hfin
 
+/-! ## edges between particles of different placements -/
+
+/-- atom `a` is a constituent of particle `x`: some placement assigned `a ↦ x` (with any weight,
+0 included); by `weights_exact` these are the keys of the particle's weight table / `graph` -/
+def Constituent (qs : List Placement) (a x : Int) : Prop := ∃ w, (a, x, w) ∈ logSpec Off.zero qs
+
+theorem stepEdges_range (o : Off) (p : Placement) (e : Int × Int) (he : e ∈ stepEdges o p) :
+    e.1 ∈ (shiftNodes o p.block).map Prod.fst ∧ e.2 ∈ (shiftNodes o p.block).map Prod.fst := by
+  unfold stepEdges at he
+  cases hre : renameEdges p.block.keys (o.n : Int) p.block.edges with
+  | none => rw [hre] at he; cases he
+  | some re =>
+    rw [hre] at he
+    obtain ⟨e0, _, h1, h2, _⟩ := renameEdges_mem _ _ _ _ hre e he
+    have hblen : p.block.keys.length = p.block.nodes.length := by simp [Mol.keys]
+    obtain ⟨i, hi, hx, _⟩ := corrOf_range _ _ _ _ h1
+    obtain ⟨j, hj, hy, _⟩ := corrOf_range _ _ _ _ h2
+    rw [mem_shiftNodes_keys, mem_shiftNodes_keys]
+    exact ⟨⟨i, by omega, hx⟩, ⟨j, by omega, hy⟩⟩
+
+/-- a bond copied from a block joins two particles of one placement -/
+theorem edgesSpec_same_placement (qs : List Placement) (x y : Int) (h : (x, y) ∈ edgesSpec Off.zero qs) :
+    ∃ i, InPlacement qs i x ∧ InPlacement qs i y := by
+  obtain ⟨pre, p, post, hsplit, he⟩ := (mem_edgesSpec _ _ _).1 h
+  obtain ⟨h1, h2⟩ := stepEdges_range _ p _ he
+  exact ⟨pre.length, ⟨pre, p, post, hsplit, rfl, h1⟩, ⟨pre, p, post, hsplit, rfl, h2⟩⟩
+
+/-- `inter_edge_iff`: two particles of different placements, neither of them spawned, are bonded
+exactly when some constituent atom of the one is bonded in the input to some constituent atom
+of the other.  (No hypothesis on overlap is needed in this form: constituents are read from the
+weight tables.) -/
+theorem inter_edge_iff (m : MolIn) (ps : List Placement) (r : Result) (h : assemble m ps = .ok r)
+    (i j : Nat) (hij : i ≠ j) (x y : Int)
+    (hx : InPlacement (order ps) i x) (hy : InPlacement (order ps) j y)
+    (hsx : x ∉ spawnedSpec Off.zero (order ps)) (hsy : y ∉ spawnedSpec Off.zero (order ps)) :
+    r.hasEdge x y = true ↔
+      ∃ a b, Constituent (order ps) a x ∧ Constituent (order ps) b y ∧ m.adj a b = true := by
+  obtain ⟨hok, _⟩ := assemble_ok m ps r h
+  have hplaced : (placeAll (order ps)).placed = (order ps).map (·.atoms) := (placeAll_spec _ hok).2.2.2.2.1
+  rw [result_hasEdge m ps r h]
+  constructor
+  · rintro ((he | he) | he | he)
+    · obtain ⟨k, h1, h2⟩ := edgesSpec_same_placement _ _ _ he
+      exact absurd ((inPlacement_unique _ _ _ _ hx h1).trans (inPlacement_unique _ _ _ _ h2 hy)) hij
+    · obtain ⟨k, h1, h2⟩ := edgesSpec_same_placement _ _ _ he
+      exact absurd ((inPlacement_unique _ _ _ _ hx h2).trans (inPlacement_unique _ _ _ _ h1 hy)) hij
+    · obtain ⟨ab, hab, hu, hv, _⟩ := (mem_interEdges m _ x y).1 he
+      obtain ⟨kk, _, _, _, hadj⟩ := (mem_crossBonds m _ ab.1 ab.2).1 hab
+      exact ⟨ab.1, ab.2, ((mem_beadsOf_placeAll _ hok _ _).1 hu).1, ((mem_beadsOf_placeAll _ hok _ _).1 hv).1, hadj⟩
+    · obtain ⟨ab, hab, hu, hv, _⟩ := (mem_interEdges m _ y x).1 he
+      obtain ⟨kk, _, _, _, hadj⟩ := (mem_crossBonds m _ ab.1 ab.2).1 hab
+      refine ⟨ab.2, ab.1, ((mem_beadsOf_placeAll _ hok _ _).1 hv).1, ((mem_beadsOf_placeAll _ hok _ _).1 hu).1, ?_⟩
+      rw [adj_comm]; exact hadj
+  · rintro ⟨a, b, ⟨w1, hc1⟩, ⟨w2, hc2⟩, hadj⟩
+    obtain ⟨pre1, p1, post1, hs1, he1⟩ := (mem_logSpec _ _ _).1 hc1
+    obtain ⟨pre2, p2, post2, hs2, he2⟩ := (mem_logSpec _ _ _).1 hc2
+    obtain ⟨hr1, ha1⟩ := stepEntries_bead_mem _ p1 _ he1
+    obtain ⟨hr2, ha2⟩ := stepEntries_bead_mem _ p2 _ he2
+    have hi : pre1.length = i := inPlacement_unique _ _ _ x ⟨pre1, p1, post1, hs1, rfl, hr1⟩ hx
+    have hj : pre2.length = j := inPlacement_unique _ _ _ y ⟨pre2, p2, post2, hs2, rfl, hr2⟩ hy
+    have hne : x ≠ y := by
+      rintro rfl
+      exact hij (inPlacement_unique _ _ _ x hx hy)
+    have hbx : x ∈ beadsOf (placeAll (order ps)) a := (mem_beadsOf_placeAll _ hok _ _).2 ⟨⟨w1, hc1⟩, hsx⟩
+    have hby : y ∈ beadsOf (placeAll (order ps)) b := (mem_beadsOf_placeAll _ hok _ _).2 ⟨⟨w2, hc2⟩, hsy⟩
+    right
+    rcases Nat.lt_or_gt_of_ne (show pre1.length ≠ pre2.length by omega) with hlt | hgt
+    · obtain ⟨mid, rfl, rfl⟩ := split_lt _ pre1 post1 pre2 post2 p1 p2 hs1 hs2 hlt
+      left
+      rw [mem_interEdges]
+      refine ⟨(a, b), ?_, hbx, hby, hne⟩
+      rw [mem_crossBonds, hplaced, hs1]
+      refine ⟨(p1.atoms, p2.atoms), ?_, ha1, ha2, hadj⟩
+      simp only [List.map_append, List.map_cons]
+      exact mem_pairsOf_split _ _ _ _ _
+    · obtain ⟨mid, rfl, rfl⟩ := split_lt _ pre2 post2 pre1 post1 p2 p1 hs2 hs1 hgt
+      right
+      rw [mem_interEdges]
+      refine ⟨(b, a), ?_, hby, hbx, hne.symm⟩
+      rw [mem_crossBonds, hplaced, hs2]
+      refine ⟨(p2.atoms, p1.atoms), ?_, ha2, ha1, by rw [adj_comm]; exact hadj⟩
+      simp only [List.map_append, List.map_cons]
+      exact mem_pairsOf_split _ _ _ _ _
+
+/-- a particle built from no atom gets no bond beyond those of its own block -/
+theorem spawned_only_block_bonds (m : MolIn) (ps : List Placement) (r : Result) (h : assemble m ps = .ok r)
+    (x y : Int) (hsx : x ∈ spawnedSpec Off.zero (order ps)) (he : r.hasEdge x y = true) :
+    (x, y) ∈ edgesSpec Off.zero (order ps) ∨ (y, x) ∈ edgesSpec Off.zero (order ps) := by
+  obtain ⟨hok, _⟩ := assemble_ok m ps r h
+  rcases (result_hasEdge m ps r h x y).1 he with he | he | he
+  · exact he
+  · obtain ⟨ab, _, hu, _, _⟩ := (mem_interEdges m _ x y).1 he
+    exact absurd hsx ((mem_beadsOf_placeAll _ hok _ _).1 hu).2
+  · obtain ⟨ab, _, _, hv, _⟩ := (mem_interEdges m _ y x).1 he
+    exact absurd hsx ((mem_beadsOf_placeAll _ hok _ _).1 hv).2
+
+/-- within one placement that shares no atom with another, the bonds are those of the block:
+a bond between two particles is a copied block bond or comes from two placements that both
+contain a constituent of each end -/
+theorem intra_edge_source (m : MolIn) (ps : List Placement) (r : Result) (h : assemble m ps = .ok r)
+    (x y : Int) (he : r.hasEdge x y = true) :
+    ((x, y) ∈ edgesSpec Off.zero (order ps) ∨ (y, x) ∈ edgesSpec Off.zero (order ps))
+    ∨ ∃ a b, Constituent (order ps) a x ∧ Constituent (order ps) b y ∧ m.adj a b = true
+        ∧ ∃ kk ∈ pairsOf ((order ps).map (·.atoms)), (a ∈ kk.1 ∧ b ∈ kk.2) ∨ (b ∈ kk.1 ∧ a ∈ kk.2) := by
+  obtain ⟨hok, _⟩ := assemble_ok m ps r h
+  have hplaced : (placeAll (order ps)).placed = (order ps).map (·.atoms) := (placeAll_spec _ hok).2.2.2.2.1
+  rcases (result_hasEdge m ps r h x y).1 he with he | he | he
+  · exact Or.inl he
+  · right
+    obtain ⟨ab, hab, hu, hv, _⟩ := (mem_interEdges m _ x y).1 he
+    obtain ⟨kk, hkk, h1, h2, hadj⟩ := (mem_crossBonds m _ ab.1 ab.2).1 hab
+    rw [hplaced] at hkk
+    exact ⟨ab.1, ab.2, ((mem_beadsOf_placeAll _ hok _ _).1 hu).1, ((mem_beadsOf_placeAll _ hok _ _).1 hv).1,
+      hadj, kk, hkk, Or.inl ⟨h1, h2⟩⟩
+  · right
+    obtain ⟨ab, hab, hu, hv, _⟩ := (mem_interEdges m _ y x).1 he
+    obtain ⟨kk, hkk, h1, h2, hadj⟩ := (mem_crossBonds m _ ab.1 ab.2).1 hab
+    rw [hplaced] at hkk
+    exact ⟨ab.2, ab.1, ((mem_beadsOf_placeAll _ hok _ _).1 hv).1, ((mem_beadsOf_placeAll _ hok _ _).1 hu).1,
+      by rw [adj_comm]; exact hadj, kk, hkk, Or.inr ⟨h1, h2⟩⟩
+
 /-! ## the matcher: reference answer -/
 
 /-- `placements_exact`: the reference matcher returns exactly the maps of the nodes of `block_from`
@@ -385,5 +506,62 @@ theorem placements_exact (mol : List MNode) (medges : List (Int × Int)) (pat : 
   intro f
   unfold refMatches
   rw [Iso.mem_allIsosP_iff _ _ _ (by rw [hk]; exact hp), hk]
+
+/-! ## non-vacuity: a concrete instance (sparse keys, a spawned particle, a half weight, an overlap) -/
+
+def exBlock : Mol :=
+  { nodes := [(0, { name := some "B1", resid := some 1 }), (1, { name := some "D" })],
+    edges := [(0, 1)], inters := [("bonds", { atoms := [0, 1], params := "1 0.3", version := 0 })] }
+
+def exMol : MolIn :=
+  { atoms := [⟨20, 6, "X", "A", false⟩, ⟨21, 6, "X", "A", false⟩, ⟨10, 5, "X", "A", false⟩,
+              ⟨11, 5, "X", "A", false⟩, ⟨30, 7, "U", "A", false⟩, ⟨31, 7, "U", "A", true⟩],
+    edges := [(10, 11), (11, 20), (20, 21), (21, 30), (30, 31)] }
+
+def exP1 : Placement := { molToBlock := [(10, [(0, 1)]), (11, [(0, mkRat 1 2)])], block := exBlock, refs := [] }
+def exP2 : Placement := { molToBlock := [(20, [(0, 1)]), (21, [(0, 1)])], block := exBlock, refs := [(1, 21)] }
+/-- a third match that shares atom 21 with `exP2` -/
+def exP3 : Placement := { molToBlock := [(21, [(0, 1)])], block := exBlock, refs := [] }
+
+instance (p : Placement) : Decidable (SingleResidue p) := by unfold SingleResidue; infer_instance
+instance (es : List (Int × Int × Rat)) : Decidable (Functional es) := by unfold Functional; infer_instance
+
+-- found in the order [exP2, exP1]; processed in the order [exP1, exP2] (lowest atom key 10 before 20)
+example : order [exP2, exP1] = [exP1, exP2] := by decide
+example : (match assemble exMol [exP2, exP1] with | .ok _ => true | .error _ => false) = true := by decide
+example : Functional (logSpec Off.zero (order [exP2, exP1])) := by decide
+example : ∀ q ∈ order [exP2, exP1], SingleResidue q := by decide
+-- particles 1,2 belong to the first placement, 3,4 to the second; 2 and 4 are spawned
+example : InPlacement (order [exP2, exP1]) 0 1 := ⟨[], exP1, [exP2], by decide, rfl, by decide⟩
+example : InPlacement (order [exP2, exP1]) 1 3 := ⟨[exP1], exP2, [], by decide, rfl, by decide⟩
+example : spawnedSpec Off.zero (order [exP2, exP1]) = [2, 4] := by decide
+example : Constituent (order [exP2, exP1]) 11 1 := ⟨mkRat 1 2, by decide⟩
+example : Constituent (order [exP2, exP1]) 20 3 := ⟨1, by decide⟩
+example : exMol.adj 11 20 = true := by decide
+-- the result: resid 1,1,2,2; the bond 1-3 comes from the input bond 11-20; atom 30 is lost (warning),
+-- hydrogen 31 only logged; `_old_resid` of particle 4 comes from its reference atom 21
+example : (match assemble exMol [exP2, exP1] with
+    | .ok r => (r.beads.map (fun b => (b.key, b.resid, b.oldResid)), r.hasEdge 1 3, r.hasEdge 2 3,
+                r.warn.unmapped, r.warn.hydrogens, r.warn.overlap)
+    | .error _ => ([], false, false, false, false, false))
+    = ([(1, some 1, some 5), (2, some 1, some 5), (3, some 2, some 6), (4, some 2, some 6)],
+       true, false, true, true, false) := by decide
+-- hypotheses of `overlap_warned` on the instance with the overlapping third match
+example : order [exP3, exP2, exP1] = [exP1] ++ exP2 :: ([] ++ exP3 :: []) := by decide
+example : (∃ ws blk w, ((21 : Int), ws) ∈ exP2.molToBlock ∧ ((blk : Int), (w : Rat)) ∈ ws) :=
+  ⟨[(0, 1)], 0, 1, by decide, by decide⟩
+example : (match assemble exMol [exP3, exP2, exP1] with | .ok r => r.warn.overlap | .error _ => false) = true := by
+  decide
+-- the reference matcher on a two-residue chain: C1-C2 fits once per residue, never across the
+-- residue boundary although the atoms 2-3 are bonded
+def exMolNodes : List MNode :=
+  [⟨1, [("atomname", "C1"), ("resname", "X")], some 5⟩, ⟨2, [("atomname", "C2"), ("resname", "X")], some 5⟩,
+   ⟨3, [("atomname", "C1"), ("resname", "X")], some 6⟩, ⟨4, [("atomname", "C2"), ("resname", "X")], some 6⟩]
+def exPat : List MNode :=
+  [⟨0, [("atomname", "C1"), ("resname", "X"), ("resid", "1")], some 1⟩,
+   ⟨1, [("atomname", "C2"), ("resname", "X"), ("resid", "1")], some 1⟩]
+example : refMatches exMolNodes [(1, 2), (2, 3), (3, 4)] exPat [(0, 1)] = [[(0, 1), (1, 2)], [(0, 3), (1, 4)]] := by
+  decide
+example : (exPat.map (·.key)).Nodup ∧ (exMolNodes.map (·.key)).Nodup := by decide
 
 end C01
